@@ -113,7 +113,23 @@ int pq_rank_cmp(const void *a, const void *b) {
 #define PQ_B(q, i, j) (PQ_DATA(q)[(i) * ISZ + (j)])
 #define PQ_KEY(q, i) PQ_B(q, i, 0)
 #define PQ_RANK(q, i) PQ_RANKOF(PQ_KEY(q, i))
-#define PQ_BPA(q) ((struct aws_priority_queue_node **)(q)->backpointers.data)
+/* The handle array.  Every read through PQ_BPA below is guarded by PQ_BP_LIVE(q).  CBMC's symbolic execution still
+ * dereferences the guarded expression, and a dereference of NULL (queue without handle array) costs a fresh "failed
+ * object" symbol each time (quadratic: a 7-slot unit spends 4 minutes there).  Units whose queue has no handle array
+ * before and after the call (the ensures clauses say so: backpointers.data stays NULL) are therefore compiled with
+ * VERIF_PQ_NO_HANDLES, which routes the guarded-away reads to a dummy array; units in which the call creates the handle
+ * array use VERIF_PQ_HANDLES_APPEAR (dummy before the call, real array after it, switched by the harness).  The values
+ * read from the dummy are never used: the guard is false. */
+struct aws_priority_queue_node *g_no_bp[VERIF_PQ_N];
+bool g_phase_post;
+#define PQ_BPR(q) ((struct aws_priority_queue_node **)(q)->backpointers.data) /* the real array (assigns clauses) */
+#if defined(VERIF_PQ_NO_HANDLES)
+#    define PQ_BPA(q) ((struct aws_priority_queue_node **)g_no_bp)
+#elif defined(VERIF_PQ_HANDLES_APPEAR)
+#    define PQ_BPA(q) ((struct aws_priority_queue_node **)(g_phase_post ? (q)->backpointers.data : (void *)g_no_bp))
+#else
+#    define PQ_BPA(q) ((struct aws_priority_queue_node **)(q)->backpointers.data)
+#endif
 #define PQ_DYN(q) ((q)->container.alloc != NULL)
 #define PQ_BP_LIVE(q) ((q)->backpointers.data != NULL)
 #define PQ_PARENT(i) (((i)-1) / 2)
@@ -236,9 +252,9 @@ int pq_rank_cmp(const void *a, const void *b) {
 static void s_swap(struct aws_priority_queue *queue, size_t a, size_t b)
 PQ_C_swap(PQ_REQ, PQ_ENS, queue, a, b)
 __CPROVER_assigns(__CPROVER_object_upto(PQ_DATA(queue) + a * ISZ, ISZ), __CPROVER_object_upto(PQ_DATA(queue) + b * ISZ, ISZ), g_pos)
-__CPROVER_assigns(PQ_BP_LIVE(queue) : PQ_BPA(queue)[a], PQ_BPA(queue)[b])
-__CPROVER_assigns(PQ_BP_LIVE(queue) && PQ_BPA(queue)[a] != NULL : PQ_BPA(queue)[a]->current_index)
-__CPROVER_assigns(PQ_BP_LIVE(queue) && PQ_BPA(queue)[b] != NULL : PQ_BPA(queue)[b]->current_index)
+__CPROVER_assigns(PQ_BP_LIVE(queue) : PQ_BPR(queue)[a], PQ_BPR(queue)[b])
+__CPROVER_assigns(PQ_BP_LIVE(queue) && PQ_BPR(queue)[a] != NULL : PQ_BPR(queue)[a]->current_index)
+__CPROVER_assigns(PQ_BP_LIVE(queue) && PQ_BPR(queue)[b] != NULL : PQ_BPR(queue)[b]->current_index)
 ;
 
 /* ------------------------------------------------------------------ sift */
